@@ -39,8 +39,17 @@ const (
 	qLimit
 	qSwap
 	qOneCol
+	qStmt0 // DECLARE … CURSOR FOR ps0 (prepared statement without placeholder)
+	qStmt1 // DECLARE … CURSOR FOR ps1 (placeholder: OPEN … USING k; qarg is the value of the last accepted OPEN)
+	qCount // the query has an observable side effect: every evaluation adds 1 to @cnt (directly / through a function)
+	qSrc   // over the temporary view sv, which the history disposes and declares again
 	nQueries
 )
+
+const ps0Text = "SELECT id, v FROM t ORDER BY id"
+const ps1Text = "SELECT id, v FROM t WHERE id > ?"
+
+var svRows = []string{"I1," + strTok("s"), "I2," + strTok("t"), "I3," + strTok("u")}
 
 type cursor struct {
 	qkind, qarg int
@@ -71,6 +80,17 @@ func queryText(k, arg int) string {
 		return fmt.Sprintf("SELECT id, v FROM t LIMIT %d", arg)
 	case qSwap:
 		return "SELECT v, id FROM t ORDER BY id"
+	case qStmt0:
+		return "ps0"
+	case qStmt1:
+		return "ps1"
+	case qCount:
+		if arg%2 == 0 {
+			return "SELECT id, v FROM t LIMIT (@cnt := @cnt + 1) * 0 + 1000"
+		}
+		return "SELECT id, v FROM t LIMIT bump() * 0 + 1000"
+	case qSrc:
+		return "SELECT id, v FROM sv"
 	}
 	return "SELECT id FROM t"
 }
@@ -112,6 +132,24 @@ func evalQuery(k, arg int, t []row) []string {
 		for _, r := range t {
 			out = append(out, r.idTok)
 		}
+	case qStmt0:
+		s := append([]row(nil), t...)
+		sort.SliceStable(s, func(i, j int) bool { return s[i].id < s[j].id })
+		for _, r := range s {
+			out = append(out, r.idTok+","+r.vTok)
+		}
+	case qStmt1:
+		for _, r := range t {
+			if r.id > int64(arg) {
+				out = append(out, r.idTok+","+r.vTok)
+			}
+		}
+	case qCount:
+		for _, r := range t {
+			out = append(out, r.idTok+","+r.vTok)
+		}
+	case qSrc:
+		out = append(out, svRows...)
 	}
 	return out
 }
@@ -138,7 +176,23 @@ type hist struct {
 	forceNum  *int64
 	fnCount   int
 	noTxn     bool
+	psGone    bool // DISPOSE PREPARE ps1 happened: evaluating a cursor FOR ps1 fails
+	cntBefore string
+	svGone    bool // DISPOSE VIEW sv happened: evaluating a cursor over sv fails
 }
+
+// sourceGone: evaluating the cursor's query now fails, with this error number
+func (h *hist) sourceGone(c *cursor) (bool, string) {
+	switch {
+	case c.qkind == qStmt1 && h.psGone:
+		return true, "E13802" // statement ps1 does not exist
+	case c.qkind == qSrc && h.svGone:
+		return true, "E90181" // file sv does not exist
+	}
+	return false, ""
+}
+
+func (h *hist) cnt() string { return h.getVar("cnt") }
 
 var namePool = []string{"cur", "CUR", "Cur", "c2", "C2", "kur"}
 
@@ -266,6 +320,7 @@ func (h *hist) setup(fixedFile bool, fixedN int) {
 		}
 	}
 	must(h.exec("VAR @a, @b, @c, @d, @s, @n; DECLARE lg VIEW (a, b); DECLARE lp VIEW (t, a, b);"))
+	must(h.exec(fmt.Sprintf("VAR @cnt := 0; PREPARE ps0 FROM '%s'; PREPARE ps1 FROM '%s'; DECLARE sv VIEW (id, v); INSERT INTO sv VALUES (1, 's'), (2, 't'), (3, 'u'); DECLARE bump FUNCTION () AS BEGIN @cnt := @cnt + 1; RETURN @cnt; END;", ps0Text, ps1Text)))
 	h.o.Case("c16.reset", "ok")
 }
 
@@ -472,34 +527,115 @@ func (h *hist) stepOpen() {
 	}
 	name := h.pickName(false)
 	c, exists := h.curs[key(name)]
-	var rows []string
-	if exists {
-		rows = evalQuery(c.qkind, c.qarg, h.t)
+	// USING: the value of ps1's placeholder; ignored by cursors that have none
+	using, usingSQL := 0, ""
+	switch {
+	case exists && c.qkind == qStmt1:
+		using = h.g.Intn(int(h.nextID)+3) - 1
+		usingSQL = fmt.Sprintf(" USING %d", using)
+	case h.g.Intn(4) == 0:
+		usingSQL = " USING 7"
 	}
-	err := h.exec(fmt.Sprintf("OPEN %s;", name))
+	var rows []string
+	gone, goneErr := false, ""
+	if exists {
+		arg := c.qarg
+		if c.qkind == qStmt1 {
+			arg = using
+		}
+		rows = evalQuery(c.qkind, arg, h.t)
+		gone, goneErr = h.sourceGone(c)
+	}
+	cntBefore := h.cnt()
+	err := h.exec(fmt.Sprintf("OPEN %s%s;", name, usingSQL))
+	cntAfter := h.cnt()
 	impl := "ok"
 	if err != nil {
 		impl = errTok(err)
 	}
-	h.o.Case(fmt.Sprintf("c16.open %s %d", name, len(rows))+joinPrefixed(rows), impl)
+	if gone {
+		// the query cannot be evaluated: the guards of OPEN still come first (model: stepOpenFailing)
+		h.o.Case(fmt.Sprintf("c16.openfail %s %s", name, goneErr), impl)
+	} else {
+		h.o.Case(fmt.Sprintf("c16.open %s %d", name, len(rows))+joinPrefixed(rows), impl)
+	}
 	want, lawName, st := "ok", "open_close_cycle", "closed"
+	evals := 0
 	switch {
 	case !exists:
 		want, lawName, st = "E11002", "undeclared_error", "undeclared"
 	case c.open:
 		want, lawName, st = "E11004", "reopen_error", "open"
+	case gone:
+		want, lawName, st = goneErr, "open_source_gone", "closed-gone"
 	default:
 		c.open, c.snap, c.ptr, c.fetched, c.dmlSince, c.pendingOvf = true, rows, -1, false, false, nil
+		if c.qkind == qStmt1 {
+			c.qarg = using
+		}
+		if c.qkind == qCount {
+			evals = 1
+		}
 	}
 	if impl != want {
 		h.law(lawName, map[string]interface{}{"op": "open", "name": name, "expected": want, "got": impl})
 		h.aborted = true
+	}
+	// OPEN evaluates the cursor's query exactly once; a refused OPEN evaluates nothing
+	if wantCnt := addTok(cntBefore, evals); cntAfter != wantCnt {
+		h.law("open_evaluates_once", map[string]interface{}{"op": "open", "name": name, "answer": impl, "cnt_before": cntBefore, "cnt_after": cntAfter,
+			"expected_cnt_after": wantCnt, "cursor_state": st})
+		h.aborted = true
+	}
+	if usingSQL != "" {
+		h.o.Count("open_using")
 	}
 	h.o.Count("op:open")
 	h.o.Count("open_len:" + lenBucket(len(rows)))
 	if exists {
 		h.o.NonTrivial(fmt.Sprintf("open|%v|q%d|%s|len%s|%s", h.file, c.qkind, st, lenBucket(len(rows)), impl))
 	}
+}
+
+// addTok: "I<n>" + k
+func addTok(tok string, k int) string {
+	var n int
+	if _, err := fmt.Sscanf(tok, "I%d", &n); err != nil {
+		return "?" + tok
+	}
+	return fmt.Sprintf("I%d", n+k)
+}
+
+// stepSource: dispose / restore the source of the cursors FOR ps1 or over sv (open cursors keep their snapshot)
+func (h *hist) stepSource(which int) {
+	if !h.valid {
+		h.stepStatus(-1)
+		return
+	}
+	var sql, kind string
+	if which < 0 {
+		which = h.g.Intn(2)
+	}
+	switch {
+	case which == 0 && !h.psGone:
+		sql, kind, h.psGone = "DISPOSE PREPARE ps1;", "drop_ps", true
+	case which == 0:
+		sql, kind, h.psGone = fmt.Sprintf("PREPARE ps1 FROM '%s';", ps1Text), "back_ps", false
+	case !h.svGone:
+		sql, kind, h.svGone = "DISPOSE VIEW sv;", "drop_sv", true
+	default:
+		sql, kind, h.svGone = "DECLARE sv VIEW (id, v); INSERT INTO sv VALUES (1, 's'), (2, 't'), (3, 'u');", "back_sv", false
+	}
+	err := h.exec(sql)
+	impl := "ok"
+	if err != nil {
+		impl = errTok(err)
+		h.law("source_statement", map[string]interface{}{"sql": sql, "got": impl})
+		h.aborted = true
+	}
+	h.o.Case("c16.dml", impl)
+	h.o.Count("op:source")
+	h.o.NonTrivial("source|" + kind)
 }
 
 func joinPrefixed(rows []string) string {
@@ -868,7 +1004,7 @@ func (h *hist) stepWhile(forcedBrk int) {
 	}
 	// optionally change the underlying table inside the loop (snapshot clause)
 	bodyDML, dmlKind := "", 0
-	if h.valid && exists && c.open && g.Intn(3) == 0 {
+	if h.valid && exists && c.open && c.qkind != qSrc && g.Intn(3) == 0 { // (rows of sv are not rows of t)
 		idVar := va
 		if c.qkind == qSwap {
 			idVar = vb
@@ -1156,6 +1292,8 @@ func (h *hist) run(steps int) int {
 				h.stepClose()
 			case w < 88:
 				h.stepDispose()
+			case w < 90:
+				h.stepSource(-1)
 			default:
 				h.stepDML()
 			}
@@ -1196,6 +1334,14 @@ func scripted(g *hc.Gen, o *hc.Out, dir string, seed int64) int {
 		{false, 3, qAll, []st{{"open", 0}, {"loop_dispose", 0}, {"isopen", 0}, {"declare", 0}, {"open", 0}, {"loop_dispose", 1}, {"isopen", 0}}},
 		{true, 3, qAll, []st{{"open", 0}, {"loop_shadow", 0}, {"inrange", 0}, {"next", 0}}},
 		{false, 5, qAll, []st{{"open", 0}, {"loop_close", 0}, {"isopen", 0}}},
+		// cursors FOR a prepared statement: OPEN of an open one (new USING value) is refused and rewinds nothing
+		{false, 5, qStmt1, []st{{"open", 0}, {"next", 0}, {"open", 0}, {"next", 0}, {"count", 0}, {"close", 0}, {"open", 0}, {"while", 0}, {"open", 0}}},
+		{true, 4, qStmt0, []st{{"open", 0}, {"next", 0}, {"open", 0}, {"next", 0}, {"while", 0}}},
+		// the query has a side effect: evaluated once per accepted OPEN, never by a refused one
+		{false, 3, qCount, []st{{"open", 0}, {"open", 0}, {"next", 0}, {"open", 0}, {"close", 0}, {"open", 0}, {"open", 0}}},
+		// the source is disposed while the cursor is open: OPEN is still "already open"; closed: the evaluation error
+		{false, 3, qStmt1, []st{{"open", 0}, {"src_ps", 0}, {"open", 0}, {"next", 0}, {"close", 0}, {"open", 0}, {"src_ps", 0}, {"open", 0}, {"next", 0}}},
+		{true, 3, qSrc, []st{{"open", 0}, {"src_sv", 0}, {"open", 0}, {"next", 0}, {"close", 0}, {"open", 0}, {"src_sv", 0}, {"open", 0}, {"while", 0}}},
 		// errors
 		{true, 2, qOneCol, []st{{"next", 0}, {"count", 0}, {"inrange", 0}, {"isopen", 0}, {"while", 0}, {"open", 0}, {"open", 0}, {"declare", 0}, {"close", 0}, {"close", 0},
 			{"next", 0}, {"dispose", 0}, {"next", 0}, {"open", 0}, {"close", 0}, {"dispose", 0}, {"isopen", 0}, {"fetchbad", 0}}},
@@ -1233,6 +1379,10 @@ func scripted(g *hc.Gen, o *hc.Out, dir string, seed int64) int {
 				h.stepStatus(2)
 			case "fetchbad":
 				h.stepFetchBad()
+			case "src_ps":
+				h.stepSource(0)
+			case "src_sv":
+				h.stepSource(1)
 			case "loop_dispose": // seeded change C16-m4, scenario 1: the body disposes the iterated cursor
 				call := x.num == 1
 				h.forceName = ""
